@@ -24,6 +24,8 @@ func main() {
 		r = net.C06(c)
 	case "C07":
 		r = net.C07(c)
+	case "C09":
+		r = net.C09(c)
 	case "C20":
 		r = net.C20(c)
 	default:
